@@ -78,62 +78,101 @@ theorem star_join_cex_empty_ifs :
 
 /-! ### the guarded statement -/
 
-private theorem seqAppend_single (r : Option (List Str)) : seqAppend [r] = r := by
-  cases r <;> simp [seqAppend]
-
-theorem glue_nil_right (a : List Field) : glue a [] = a := by
-  cases a with
-  | nil => rfl
-  | cons x r => cases r <;> rfl
-
-/-- a word without brace expressions is expanded as the reference says, whenever IFS is non-empty or the
-word holds no `$*`-like piece (then the `"$*"` separator plays no role) -/
-theorem word_expansion_refines_spec_partial (env : Env) (opts : Opts) (names : List Str) (w : BWord)
-    (hb : hasBraces w = false) (hi : env.ifsStr ≠ []) :
-    fullExpandB env opts names w = specExpandB env opts names w := by
+/-- with a non-empty IFS the `"$*"` separator of the reference and of brush coincide -/
+private theorem fullExpand_spec_env (env : Env) (opts : Opts) (names : List Str) (hi : env.ifsStr ≠ []) (w' : Word) :
+    fullExpand { env with bashStarJoin := true } opts names w' = fullExpand env opts names w' := by
   have hj : ∀ b, ({ env with bashStarJoin := b } : Env).joiner = env.joiner := by
     intro b
     simp only [Env.joiner, Env.ifsStr]
     cases h : env.ifs.getD [' ', '\t', '\n'] with
     | nil => exact absurd h hi
     | cons c r => rfl
-  have hp : ∀ w : BWord, hasBraces w = false →
-      braceProduct w = [w.filterMap fun | .piece p => some p | .braces _ => none] := by
-    intro w
-    induction w with
-    | nil => intro _; rfl
-    | cons b r ih =>
-      intro h
-      cases b with
-      | braces a => simp [hasBraces] at h
-      | piece p =>
-        have hr : hasBraces r = false := by simpa [hasBraces] using h
-        simp [braceProduct, ih hr]
-  have heq : ∀ w' : Word, fullExpand { env with bashStarJoin := true } opts names w' = fullExpand env opts names w' := by
-    intro w'
-    have hP : expandParam { env with bashStarJoin := true } = expandParam env := by
-      funext p; cases p <;> simp [expandParam]
-    have hA0 : expandA0 { env with bashStarJoin := true } = expandA0 env := by
-      funext a; cases a <;> simp [expandA0, hP]
-    have hW0 : expandW0 { env with bashStarJoin := true } = expandW0 env := by
-      funext x; cases x <;> simp [expandW0, hA0, hj]
-    have hOp : expandOpWord { env with bashStarJoin := true } = expandOpWord env := by
-      funext d x
-      unfold expandOpWord
-      simp only [hA0, hW0, hj]
-    have hA1 : expandA1 { env with bashStarJoin := true } = expandA1 env := by
-      funext d a; cases a <;> simp only [expandA1, hA0, hOp, hP]
-    have hWP : expandWP { env with bashStarJoin := true } = expandWP env := by
-      funext p; cases p <;> simp [expandWP, hA1, hj]
-    simp [fullExpand, basicExpand, hWP, Env.ifsStr]
-  simp only [fullExpandB, specExpandB, braceJoin, hb, hp w hb, List.map_cons, List.map_nil, seqAppend, heq]
-  exact (seqAppend_single _).symm
+  have hP : expandParam { env with bashStarJoin := true } = expandParam env := by
+    funext p; cases p <;> simp [expandParam]
+  have hA0 : expandA0 { env with bashStarJoin := true } = expandA0 env := by
+    funext a; cases a <;> simp [expandA0, hP]
+  have hW0 : expandW0 { env with bashStarJoin := true } = expandW0 env := by
+    funext x; cases x <;> simp [expandW0, hA0, hj]
+  have hOp : expandOpWord { env with bashStarJoin := true } = expandOpWord env := by
+    funext d x
+    unfold expandOpWord
+    simp only [hA0, hW0, hj]
+  have hA1 : expandA1 { env with bashStarJoin := true } = expandA1 env := by
+    funext d a; cases a <;> simp only [expandA1, hA0, hOp, hP]
+  have hWP : expandWP { env with bashStarJoin := true } = expandWP env := by
+    funext p; cases p <;> simp [expandWP, hA1, hj]
+  simp [fullExpand, basicExpand, hWP, Env.ifsStr]
+
+private theorem braceProduct_nobraces : ∀ w : BWord, hasBraces w = false →
+    braceProduct w = [w.filterMap fun | .piece p => some p | .braces _ => none] := by
+  intro w
+  induction w with
+  | nil => intro _; rfl
+  | cons b r ih =>
+    intro h
+    cases b with
+    | braces a => simp [hasBraces] at h
+    | piece p =>
+      have hr : hasBraces r = false := by simpa [hasBraces] using h
+      simp [braceProduct, ih hr]
+
+/-- decidable guard of the partial theorem: IFS is non-empty, and if the word has brace expressions then IFS holds
+a space and no generated word is empty (clauses `star_joined_with_space_when_ifs_empty`,
+`brace_alternatives_joined_with_space`, `empty_brace_alternative_kept`) -/
+def InDomain (env : Env) (w : BWord) : Prop :=
+  env.ifsStr ≠ [] ∧ (hasBraces w = true → ' ' ∈ env.ifsStr ∧ ∀ x ∈ braceProduct w, x ≠ [])
+
+instance (env : Env) (w : BWord) : Decidable (InDomain env w) := by unfold InDomain; infer_instance
+
+/-- **word_expansion_refines_spec_partial**: inside the guard, brush's word expansion (brace alternatives joined
+with a space and re-read as one word, then parameter/command/arithmetic expansion, coalescing, field splitting,
+pathname expansion) yields exactly the argument list of the reference semantics (brace expansion first, every
+generated word expanded separately) — for every word, environment, option set and directory. -/
+theorem word_expansion_refines_spec_partial (env : Env) (opts : Opts) (names : List Str) (w : BWord)
+    (hd : InDomain env w) :
+    fullExpandB env opts names w = specExpandB env opts names w := by
+  obtain ⟨hi, hbr⟩ := hd
+  have hfe : fullExpand { env with bashStarJoin := true } opts names = fullExpand env opts names :=
+    funext (fullExpand_spec_env env opts names hi)
+  simp only [fullExpandB, specExpandB, hfe]
+  cases hb : hasBraces w with
+  | false =>
+    simp only [braceJoin, hb, braceProduct_nobraces w hb, List.map_cons, List.map_nil, Bool.false_eq_true, ↓reduceIte]
+    exact (seqAppend_single _).symm
+  | true =>
+    obtain ⟨hsp, hne⟩ := hbr hb
+    have hmap : (braceProduct w).map (fun x => if x.isEmpty then [WP.dq []] else x) = braceProduct w := by
+      have hid : ∀ x ∈ braceProduct w, (fun x : Word => if x.isEmpty then [WP.dq []] else x) x = id x := by
+        intro x hx
+        have := hne x hx
+        cases x with
+        | nil => exact absurd rfl this
+        | cons a r => rfl
+      rw [List.map_congr_left hid, List.map_id]
+    simp only [braceJoin, hb, ↓reduceIte, hmap]
+    cases hp : braceProduct w with
+    | nil => simp [fullExpand, basicExpand, coalesce, splitFields, splitGo, globFields, seqAppend]
+    | cons x r => exact fullExpand_joined env opts names hsp r x
+
+example : InDomain { vars := [("s".toList, " a  b ".toList)] }
+    [.braces [[.plain (.base (.param (.named "s".toList)))], [.dq [.base (.text "*".toList)]]],
+     .piece (.plain (.base (.text "c".toList)))] := by decide
 
 example : fullExpandB { vars := [("s".toList, " a  b ".toList)] } {} ["a".toList]
-    [.piece (.plain (.base (.param (.named "s".toList)))), .piece (.dq [.base (.text "*".toList)])] =
+    [.braces [[.plain (.base (.param (.named "s".toList)))], [.dq [.base (.text "*".toList)]]],
+     .piece (.plain (.base (.text "c".toList)))] =
     specExpandB { vars := [("s".toList, " a  b ".toList)] } {} ["a".toList]
-    [.piece (.plain (.base (.param (.named "s".toList)))), .piece (.dq [.base (.text "*".toList)])] :=
-  word_expansion_refines_spec_partial _ _ _ _ rfl (by decide)
+    [.braces [[.plain (.base (.param (.named "s".toList)))], [.dq [.base (.text "*".toList)]]],
+     .piece (.plain (.base (.text "c".toList)))] :=
+  word_expansion_refines_spec_partial _ _ _ _ (by decide)
+
+/-- coalescing adjacent pieces is associative: how a word is cut into groups of pieces does not matter -/
+theorem coalesce_assoc (a b c : List Expansion) :
+    (coalesce (a ++ b ++ c)).fields = glue (coalesce a).fields (glue (coalesce b).fields (coalesce c).fields) := by
+  rw [List.append_assoc, coalesce_append_fields, coalesce_append_fields]
+
+example : glue (glue [[.split "a".toList]] [[.unsplit "b".toList], []]) [[.split "c".toList]] =
+    glue [[.split "a".toList]] (glue [[.unsplit "b".toList], []] [[.split "c".toList]]) := glue_assoc _ _ _
 
 /-! ## `$@` / `$*` field structure -/
 
